@@ -4,6 +4,8 @@ From AdltV Require Import Base.Res Base.MachInt Merge.Multi Merge.MultiProofs Fi
      Lifecycle.Model Lifecycle.ForwardProofs Convert.Select.
 Import ListNotations.
 Open Scope N_scope.
+(* Filter/SetsProofs.v has a [number] of its own *)
+Notation number := Multi.number.
 
 (* ------------------------------------------------------------------ small facts *)
 Lemma c_index_set i x : c_index (c_set_index i x) = i. Proof. reflexivity. Qed.
@@ -48,13 +50,13 @@ Lemma t4_loop_spec o l : forall s,
 Proof.
   induction l as [|x r IH]; intros s.
   - cbn. destruct s as [a b c]. cbn. destruct (has_style o), (o_file o); cbn; rewrite ?N.add_0_r; reflexivity.
-  - cbn [t4_loop filter]. unfold passes at 1 3 5. destruct (lc_pass o x) eqn:El; cbn [negb andb].
+  - cbn [t4_loop filter]. destruct (lc_pass o x) eqn:El; cbn [negb].
     + destruct (in_window o x) eqn:Ew.
-      * rewrite IH. cbn [t_screen t_file t_output rev length].
-        destruct (has_style o), (o_file o); cbn [orb]; rewrite <- ?app_assoc; cbn [app];
-          f_equal; rewrite ?Nat2N.inj_succ; lia.
-      * apply IH.
-    + apply IH.
+      * assert (Hp : passes o x = true) by (unfold passes; rewrite El, Ew; reflexivity). rewrite Hp.
+        rewrite IH. cbn [t_screen t_file t_output rev length]. rewrite Nat2N.inj_succ.
+        destruct (has_style o), (o_file o); cbn [orb]; rewrite <- ?app_assoc; cbn [app]; f_equal; lia.
+      * assert (Hp : passes o x = false) by (unfold passes; rewrite El, Ew; reflexivity). rewrite Hp. apply IH.
+    + assert (Hp : passes o x = false) by (unfold passes; rewrite El; reflexivity). rewrite Hp. apply IH.
 Qed.
 
 Lemma t4_spec o merged l :
@@ -307,4 +309,37 @@ Proof.
     + unfold hsize. rewrite contents_new_heap. reflexivity.
     + rewrite <- E. rewrite <- (map_length c_uid), concat_chain_uids, map_length. cbn. exact Hb.
     + rewrite Ho in H. inversion H; subst. exact Hr.
+Qed.
+
+Lemma convert_first_Convert sorter args o r :
+  InRange args -> o_sort o = false -> convert_first args o = Ok (Some r) -> Convert sorter args o (Some r).
+Proof.
+  intros Hb Ho H. unfold convert_first in H. destruct (files_ok args) as [|f fs] eqn:Ef; [discriminate|].
+  destruct (merged_first args) as [merged| |] eqn:Em; try discriminate. inversion H; subst r.
+  apply Conv_run with (sorted := lc_stage merged).
+  - rewrite Ef. discriminate.
+  - apply merged_first_Merged; assumption.
+  - unfold sort_stage. rewrite Ho. reflexivity.
+Qed.
+
+Lemma memN_In x l : memN x l = true <-> In x l.
+Proof.
+  unfold memN. rewrite existsb_exists. split.
+  - intros [y [Hy E]]. apply N.eqb_eq in E. subst. exact Hy.
+  - intros H. exists x. split; [exact H|apply N.eqb_refl].
+Qed.
+
+(* the selection predicate, spelled out *)
+Lemma selected_meaning o x :
+  selected o x = true <->
+  (o_first o <= c_index x <= o_last o) /\
+  (o_lcs o = [] \/ In (c_lc x) (o_lcs o)) /\
+  ((~ (exists f, In f (o_filters o) /\ f_enabled f = true /\ f_kind f = Positive) \/
+    (exists f, In f (o_filters o) /\ f_enabled f = true /\ f_kind f = Positive /\ fmatches f x = true)) /\
+   ~ (exists f, In f (o_filters o) /\ f_enabled f = true /\ f_kind f = Negative /\ fmatches f x = true)).
+Proof.
+  unfold selected, in_window, lc_pass. rewrite !andb_true_iff, orb_true_iff, !N.leb_le, memN_In.
+  rewrite (keep_spec_prop fmatches (o_filters o) x).
+  assert (He : is_empty (o_lcs o) = true <-> o_lcs o = []) by (destruct (o_lcs o); cbn; split; intros; congruence).
+  rewrite He. tauto.
 Qed.
